@@ -41,7 +41,7 @@ def setNone {α : Type} : Nat → List (Option α) → List (Option α)
 
 def Client.step (T : Tables) (raises : Nat → Cb → Bool) (c : Client) : COp → Client × CObs
   | .addMatch cb a =>
-    let text := renderRule a
+    let text := renderRuleWith T.clientEscapes a
     ({ c with calls := c.calls ++ [some (.addOk cb a text)] }, .sentAdd text)
   | .delMatch id =>
     match c.matchRules.lookup id with
